@@ -11,8 +11,10 @@
        between: the splice (the front item's self pointer is redirected to the setter's local list: from
        then on the waiters are on the local list and try_remove no longer needs the head lock);
      - pop_front on the setter's local list and try_remove are atomic at the store that clears the item's self
-       pointer (from then on try_remove(item) answers false); try_remove of the front item of the event's list
-       needs the head lock, so it blocks while a push / set / reset holds it;
+       pointer (from then on try_remove(item) answers false; the repeated loads of one failing try_remove
+       are below this granularity); try_remove of the front item of the event's list needs the head lock, so
+       it blocks while a set / reset holds it (a push in flight redirects the old front item to the new
+       item's link word before it unlocks head_, so it does not block the removal);
      - ready() is one load of the head word (it ignores the lock bit).
    Every waiter w has its own stop source, abstracted at its linearisation points exactly as the driver's token
    does (the internals of inplace_stop_source are property C03's model): REGISTER (linked, or the callback runs
